@@ -2,7 +2,7 @@
 (* Model-checking harness for MossColl: finite alphabets and path trees. *)
 EXTENDS MossColl
 
-CONSTANTS OpAlpha,   \* set of op names: "s1","s2","se","d","m1","m2"
+CONSTANTS OpAlpha,   \* set of op names: "s1","s2","se","d","m1","m2","xk","xv"
           MaxOps,    \* at most this many operations in one batch node
           Tree,      \* "flat" | "a" | "ab" | "aa"  (shape of the child-collection tree)
           SimLen     \* length of the random walks printed by -simulate
@@ -25,6 +25,8 @@ OpOf(n) == CASE n = "s1" -> [o |-> "set", v |-> <<1>>]
              [] n = "d"  -> [o |-> "del", v |-> <<>>]
              [] n = "m1" -> [o |-> "mrg", v |-> <<11>>]
              [] n = "m2" -> [o |-> "mrg", v |-> <<12>>]
+             [] n = "xk" -> [o |-> "xk",  v |-> <<1>>]     \* Set(oversize key, v): rejected
+             [] n = "xv" -> [o |-> "xv",  v |-> <<>>]      \* Set(key, oversize value): rejected
 
 McOps == {OpOf(n) : n \in OpAlpha} \cup {[o |-> "none", v |-> <<>>]}
 McSegs == {s \in [1..NKeys -> McOps] : Cardinality({k \in 1..NKeys : s[k].o # "none"}) <= MaxOps}
@@ -39,6 +41,7 @@ LeadViewIsRef == Lead(ViewIsRef)
 LeadOverlayIsRef == Lead(OverlayIsRef)
 LeadDirectGetAgrees == Lead(DirectGetAgrees)
 LeadCachedIsRef == Lead(CachedIsRef)
+LeadCachedMemIsMem == Lead(CachedMemIsMem)
 LeadStoreIsPrefix == Lead(StoreIsPrefix)
 LeadGaugesZeroImpliesPersisted == Lead(GaugesZeroImpliesPersisted)
 LeadDrainedIsPersisted == Lead(DrainedIsPersisted)
@@ -62,10 +65,54 @@ GoalSnapHeldAcrossPersistAndClose ==
 GoalReopenedChildData ==
     Goal(nre >= 1 /\ life = "open" /\ \E p \in Paths \ {""} : store[p].ex /\ \E k \in 1..NKeys : store[p].m[k].p)
 
+\* a child collection was recreated (new incarnation) after a reopen while the store
+\* still holds its previous incarnation
+\* ... and holds a key there that the recreated child must not show
+GoalRecreatedAfterReopen ==
+    Goal(nre >= 1 /\ life = "open" /\ \E p \in Paths \ {""} : coll[p].ex /\ store[p].ex /\ coll[p].incar # store[p].incar
+                                                       /\ \E k \in 1..NKeys : store[p].m[k].p /\ ~ref[p].m[k].p)
+\* shapes in which a read has to cross every section boundary
+HasSegs(sct) == ~sct.nil /\ \E p \in Paths : sct.t[p].has /\ sct.t[p].segs # <<>>
+GoalAllSections == Goal(life = "open" /\ HasSegs(top) /\ HasSegs(mid) /\ HasSegs(base) /\ (CachePersisted => HasSegs(clean)))
+\* the merger has ingested while a persistence round is pending (and a clean stack is cached)
+GoalIngestWhileBase == Goal(mPc = "ingested" /\ HasSegs(base) /\ (CachePersisted => HasSegs(clean)) /\ ~TreeEmpty(mw.t))
+\* the persister swapped between the merger's ingest and its swap (the MB-19667 window)
+GoalSwapAfterPersist == Goal(mPc = "ingested" /\ ~mw.base.nil /\ base.nil /\ ~TreeEmpty(mw.t))
+\* the merger handed off an empty stack (idle run) and data arrived while that round was pending
+GoalDataBehindIdleRound == Goal(~base.nil /\ TreeEmpty(base.t) /\ HasSegs(mid) /\ pPc = "idle")
+
+\* shadowing across sections while the merger is between ingest and swap: the newest version of a
+\* key lies in stackDirtyBase (round pending), an older one in stackClean, none above
+SecHasOp(sct, p, k) == ~sct.nil /\ sct.t[p].has /\ \E i \in 1..Len(sct.t[p].segs) : sct.t[p].segs[i][k].o # "none"
+GoalBaseShadowsClean ==
+    Goal(mPc = "ingested" /\ ~TreeEmpty(mw.t) /\ \E k \in 1..NKeys : SecHasOp(clean, "", k) /\ SecHasOp(base, "", k) /\ ~SecHasOp(mid, "", k))
+\* the merger has to resolve a merge operand against the lower level itself: the key has only
+\* operands in the stack being merged, its value is below, and the key is not in the tail
+\* that mergeInto copies verbatim (another segment still has an entry at or after it)
+GoalMergeOverLL ==
+    Goal(mPc = "ingested" /\ ~ll.nil /\ mw.base.nil /\
+         \E k \in 1..NKeys :
+            /\ ll.c[""].m[k].p
+            /\ LET segs == mw.t[""].segs IN
+               /\ \E i \in 1..Len(segs) : segs[i][k].o = "mrg"
+               /\ \A i \in 1..Len(segs) : segs[i][k].o \in {"none", "mrg"}
+               /\ Cardinality({i \in 1..Len(segs) : \E k2 \in k..NKeys : segs[i][k2].o # "none"}) >= 2)
+
 \* one behaviour per explored transition (exhaustive configurations)
 Edge == PrintT(<<"BEH", ToJson(hist')>>)
 
 \* behaviours of random walks (-simulate): printed when the walk has the wanted length
 SimPrint == IF Len(hist) = SimLen \/ (Len(hist) >= 4 /\ ~ENABLED Next) THEN PrintT(<<"BEH", ToJson(hist)>>) ELSE TRUE
-SimNext == Len(hist) < SimLen /\ Next
+\* one batch chosen at random per step: otherwise the many possible batches outweigh the single
+\* successor of each background action and the walks hardly ever complete persistence rounds
+\* (likewise one snapshot action); Close is offered only every eighth step, so that the walks
+\* complete several persistence rounds between the lifecycle events
+Sometimes(n) == RandomElement(1..n) = 1
+SimNext ==
+    /\ Len(hist) < SimLen
+    /\ \/ \E b \in {RandomElement(Batches)} : ExecuteBatch(b)
+       \/ Workers
+       \/ (MaxSnaps > 0 /\ Sometimes(3) /\ \E i \in {RandomElement(1..MaxSnaps)} : TakeSnapshot(i) \/ CloseSnapshot(i))
+       \/ (Sometimes(8) /\ CloseBegin)
+       \/ CloseEnd \/ Reopen
 =============================================================================
